@@ -29,6 +29,23 @@ import thespian.actors as ta
 from sim import kernel
 
 
+class ActorEvent:
+    """callable wrapper that marks loop callbacks belonging to the actor runtime (deliveries, wake-ups)"""
+
+    __slots__ = ("fn", "args")
+
+    def __init__(self, fn, *args):
+        self.fn = fn
+        self.args = args
+
+    def __call__(self):
+        return self.fn(*self.args)
+
+
+def is_actor_event(handle):
+    return isinstance(handle._callback, ActorEvent)  # pylint: disable=protected-access
+
+
 class SimFuture:
     """what Worker / TaskExecutionActor expect from concurrent.futures.Future, backed by an asyncio task or a timer"""
 
@@ -45,7 +62,7 @@ class SimFuture:
         self._result = result
 
     def done(self):
-        self._rt.touch("future.done")
+        self._rt.preemption_point("future.done")
         return self._done
 
     def running(self):
@@ -190,8 +207,18 @@ class SimRuntime:
         self.before_delivery = None  # hook(rec, msg, sender) -> None (fault injection)
         self.stats = {"messages": 0, "wakeups": 0, "retries": 0, "poison": 0}
 
-    def touch(self, what):
-        pass
+    preempt = None  # callable(what) -> seconds of executor work to let happen at a pre-emption point (0 = none)
+
+    def preemption_point(self, what):
+        """a linearisation point of state shared between an actor handler and its executor thread"""
+        if self.preempt is None:
+            return
+        window = self.preempt(what)
+        if window and window > 0:
+            self.stats["preemptions"] = self.stats.get("preemptions", 0) + 1
+            ran = self.loop.run_executor_work(self.clock.now + window, is_actor_event)
+            if ran:
+                self.stats["preemptions_with_work"] = self.stats.get("preemptions_with_work", 0) + 1
 
     # ------------------------------------------------------------------ hosts
     def add_host(self, name, capabilities):
@@ -267,7 +294,7 @@ class SimRuntime:
         self.channels.setdefault(key, deque()).append((blob, sender_addr, self.clock.now, type(msg).__name__))
         self.stats["messages"] += 1
         self.send_log.append((self.clock.now, sender_key, str(target_addr), type(msg).__name__))
-        self.loop.call_at(at, self._pump, key)
+        self.loop.call_at(at, ActorEvent(self._pump, key))
 
     def _pump(self, key):
         blob, sender_addr, t_sent, tname = self.channels[key].popleft()
@@ -387,7 +414,7 @@ class SimRuntime:
                 self.message_log.append((self.clock.now, self.clock.now, rec.proc, rec.proc, "WakeupMessage"))
                 self._deliver(rec, ta.WakeupMessage(delay_td, payload), rec.address)
 
-        self.loop.call_at(self.clock.now + seconds + late, fire)
+        self.loop.call_at(self.clock.now + seconds + late, ActorEvent(fire))
 
     # ------------------------------------------------------------------ convention (remote daemons)
     def register_convention_listener(self, rec, enable):
